@@ -79,6 +79,25 @@ func RunC15Gen(casesPath string, seed int64, thorough bool) error {
 			}
 			tr.Emit(Rec{"kind": "valset", "vs": vs})
 		}
+		// realistic sets (powers in whole tokens, totals of every residue mod 3): the chain also derives the two-thirds
+		// power threshold that goes into the checkpoint from them
+		for _, n := range []int{1, 2, 3, 4, 5, 13} {
+			for res := 0; res < 3; res++ {
+				var vs []Rec
+				tot := 0
+				for i := 0; i < n; i++ {
+					p := 1 + rng.Intn(5_000_000)
+					if i == n-1 {
+						for (tot+p)%3 != res {
+							p++
+						}
+					}
+					tot += p
+					vs = append(vs, Rec{"addr": bytesJ(randBytes(rng, 20)), "power": bytesJ(u64be(uint64(p)))})
+				}
+				tr.Emit(Rec{"kind": "valset", "vs": vs, "small": true})
+			}
+		}
 		for i := 0; i < 6; i++ {
 			tr.Emit(Rec{"kind": "checkpoint", "thr": bytesJ(u64be(pickU64(rng))), "ts": bytesJ(u64be(pickU64(rng))), "hash": bytesJ(randBytes(rng, 32))})
 		}
@@ -103,6 +122,7 @@ func RunC15Gen(casesPath string, seed int64, thorough bool) error {
 
 type c15Case struct {
 	Kind       string `json:"kind"`
+	Small      bool   `json:"small"`
 	Vs         []struct{ Addr, Power []int } `json:"vs"`
 	Thr        []int  `json:"thr"`
 	Ts         []int  `json:"ts"`
@@ -206,6 +226,18 @@ func RunC15(casesPath, prePath, tracePath, statsPath string) error {
 				}
 				rec["bytes"] = bytesJ(enc)
 				rec["gohash"] = hex.EncodeToString(h)
+				if cs.Small {
+					// the threshold the chain stores (and signs into the checkpoint) for this set
+					cctx, _ := c.Ctx.CacheContext()
+					if err := k.SetBridgeValidatorParams(cctx, set); err != nil {
+						return err
+					}
+					p, err := k.ValidatorCheckpointParamsMap.Get(cctx, uint64(cctx.BlockTime().UnixMilli()))
+					if err != nil {
+						return err
+					}
+					rec["gothr"] = int(p.PowerThreshold)
+				}
 			case "checkpoint":
 				cctx, _ := c.Ctx.CacheContext()
 				h, err := k.CalculateValidatorSetCheckpoint(cctx, toU64(cs.Thr), toU64(cs.Ts), toB(cs.Hash))
